@@ -41,6 +41,8 @@ def _behaviour(spec, seed):
         agents = kw.pop("agents", None)
         illegal = kw.pop("illegal", ())
         return behave.AgentBehaviour(spec.get("seed", seed), agents, illegal, **kw)
+    if kind == "model":
+        return behave.ModelBehaviour({(a, b, c): v for a, b, c, v in spec["table"]})
     if kind == "table":
         table = {(a, b, c): v for a, b, c, v in spec["table"]}
         return behave.TableBehaviour(table, spec.get("seed", seed), **kw)
@@ -55,7 +57,7 @@ def run_case(case: dict):
     beh = _behaviour(case.get("behaviour", {}), seed)
     pol = _policy(case.get("policy", {}), seed)
     ctx = drive.execute(case["scn"], beh, pol, run_kw=case.get("run_kw"), world_kw=case.get("world_kw"),
-                        connect_order=case.get("connect_order"))
+                        connect_order=case.get("connect_order"), internal_trace=bool(case.get("internal")))
     res = {
         "id": case["id"],
         "outcome": ctx.outcome,
@@ -67,6 +69,9 @@ def run_case(case: dict):
     }
     if case.get("keep_trace"):
         res["trace"] = ctx.trace
+    if case.get("internal"):
+        res["internal"] = ctx.internal
+        res["unscripted"] = getattr(beh, "unscripted", 0)
     return res
 
 
